@@ -41,9 +41,12 @@ structure OpProc where
   deployed : Bool := false
   srcs : List Nat := []
   inflight : Option (Nat × List Nat) := none   -- checkpoint id, source runners whose barrier is still missing
+  epoch : Nat := 0                             -- ghost: number of HandleDeploy calls so far
+  batch : List (Nat × Nat) := []               -- eventBatcher: (event tag, ghost: epoch in which it arrived)
 
 structure St where
   w : Nat                     -- config.WorkerCount
+  bmax : Nat := 3             -- EventBatcherParams.MaxSize of the operators
   d : Nat                     -- heartbeat deadline
   now : Nat                   -- clock
   ops : List Nat              -- registry.operators (ascending ids)
@@ -57,8 +60,8 @@ structure St where
   store : Store
   procs : Nat → OpProc
 
-def init (w d c0 : Nat) : St :=
-  { w := w, d := d, now := 1000, ops := [], srs := [], live := fun _ => none, status := .init,
+def init (w d c0 : Nat) (bmax : Nat := 3) : St :=
+  { w := w, bmax := bmax, d := d, now := 1000, ops := [], srs := [], live := fun _ => none, status := .init,
     asmOps := [], asmSrs := [], ticker := false, startCk := none,
     store := { counter := c0, pending := none, current := if c0 = 0 then none else some c0 },
     procs := fun _ => {} }
@@ -152,6 +155,7 @@ inductive Act
   | regO (i : Nat) | regS (i : Nat) | deregO (i : Nat) | deregS (i : Nat) | adv (n : Nat)
   | deployOk | deployFail (k : Nat)
   | tick | ackS (i id : Nat) | ackO (i id : Nat) | bar (i s id : Nat)
+  | ev (i s tag : Nat) | flush (i : Nat)
   deriving DecidableEq, Repr
 
 /-- the tasks that change the registry (each ends with `evaluateClusterStatus`) -/
@@ -164,10 +168,12 @@ inductive Out
   | done
   | nostart
   | started (st : Status) (ck : Option Nat) (assigned : List Nat) (stalePending : Bool) (staleRecs : List Nat)
+      (staleBatch : List Nat)
   | stopped | retry | ckpt (id : Nat) (srs : List Nat)
   | ack (r : AckRes)
-  | barOk | barAcked (pub : Option Nat) | barAckErr (r : AckRes) | barMismatch | barBlocked | barNotReady
-  | barWouldPanic
+  | barOk | barAcked (pub : Option Nat) (flushed : List (Nat × Nat)) (epoch : Nat)
+  | barAckErr (r : AckRes) (flushed : List (Nat × Nat)) (epoch : Nat) | barMismatch | barBlocked | barNotReady
+  | evQueued | processed (batch : List (Nat × Nat)) (epoch : Nat) | flushEmpty
   deriving DecidableEq, Repr
 
 def Out.dep? : Out → Option Dep
@@ -176,9 +182,12 @@ def Out.dep? : Out → Option Dep
 
 def setProc (f : Nat → OpProc) (i : Nat) (p : OpProc) : Nat → OpProc := fun j => if j = i then p else f j
 
-/-- `HandleDeploy` on every operator of the assembly except the unreachable one -/
+/-- `HandleDeploy` on every operator of the assembly except the unreachable one. The in-flight checkpoint record is
+dropped (D15, D43); the event batcher is not touched, so events of the previous deployment stay queued (finding D45) -/
 def deployProcs (s : St) (skip : Option Nat) : Nat → OpProc :=
-  fun j => if s.asmOps.contains j && skip != some j then { deployed := true, srcs := s.asmSrs, inflight := none } else s.procs j
+  fun j => if s.asmOps.contains j && skip != some j then
+      { deployed := true, srcs := s.asmSrs, inflight := none, epoch := (s.procs j).epoch + 1, batch := (s.procs j).batch }
+    else s.procs j
 
 def withStatus (r : St × Option Dep) : St × Out := (r.1, .status r.1.status r.2)
 
@@ -189,21 +198,18 @@ def parked (r : Option (Nat × List Nat)) (sr : Nat) : Bool :=
   | some (_, waiting) => !waiting.contains sr && !waiting.isEmpty
   | none => false
 
-/-- a completed record whose acknowledgement the job rejected stays; a further barrier with its id would close the
-alignment channel a second time -/
-def reclose (r : Option (Nat × List Nat)) (id : Nat) : Bool :=
-  match r with
-  | some (rid, waiting) => waiting.isEmpty && rid == id
-  | none => false
-
-/-- `registerBarrier` on the record `(rid, waiting)` and, once every barrier is in, the acknowledgement to the job -/
+/-- `registerBarrier` on the record `(rid, waiting)` and, once every barrier is in: flush the event batch, take the
+DKV checkpoint, acknowledge to the job. A rejected acknowledgement leaves the completed record in place. -/
 def register (s : St) (i sr id rid : Nat) (waiting : List Nat) : St × Out :=
   if rid ≠ id then (s, .barMismatch)
   else if (waiting.filter (· ≠ sr)).isEmpty then
     match ackO s.store i rid with
     | (st', .ok pub) =>
-      ({ s with store := st', procs := setProc s.procs i { (s.procs i) with inflight := none } }, .barAcked pub)
-    | (_, r) => ({ s with procs := setProc s.procs i { (s.procs i) with inflight := some (rid, []) } }, .barAckErr r)
+      ({ s with store := st', procs := setProc s.procs i { (s.procs i) with inflight := none, batch := [] } },
+       .barAcked pub (s.procs i).batch (s.procs i).epoch)
+    | (_, r) =>
+      ({ s with procs := setProc s.procs i { (s.procs i) with inflight := some (rid, []), batch := [] } },
+       .barAckErr r (s.procs i).batch (s.procs i).epoch)
   else
     ({ s with procs := setProc s.procs i { (s.procs i) with inflight := some (rid, waiting.filter (· ≠ sr)) } }, .barOk)
 
@@ -211,9 +217,25 @@ def register (s : St) (i sr id rid : Nat) (waiting : List Nat) : St × Out :=
 def barrier (s : St) (i sr id : Nat) : St × Out :=
   if !(s.procs i).deployed then (s, .barNotReady)
   else if parked (s.procs i).inflight sr then (s, .barBlocked)
-  else if reclose (s.procs i).inflight id then (s, .barWouldPanic)
   else register s i sr id ((s.procs i).inflight.getD (id, (s.procs i).srcs)).1
          ((s.procs i).inflight.getD (id, (s.procs i).srcs)).2
+
+/-- `HandleEvent` with a keyed event: `alignSender`, then `handleUserEvent` (add to the batcher, process when full) -/
+def event (s : St) (i sr tag : Nat) : St × Out :=
+  if !(s.procs i).deployed then (s, .barNotReady)
+  else if parked (s.procs i).inflight sr then (s, .barBlocked)
+  else if s.bmax ≤ (s.procs i).batch.length + 1 then
+    ({ s with procs := setProc s.procs i { (s.procs i) with batch := [] } },
+     .processed ((s.procs i).batch ++ [(tag, (s.procs i).epoch)]) (s.procs i).epoch)
+  else
+    ({ s with procs := setProc s.procs i { (s.procs i) with batch := (s.procs i).batch ++ [(tag, (s.procs i).epoch)] } },
+     .evQueued)
+
+/-- the batcher's timer fires: `processEventBatch` of whatever is queued -/
+def flushBatch (s : St) (i : Nat) : St × Out :=
+  if (s.procs i).batch.isEmpty then (s, .flushEmpty)
+  else ({ s with procs := setProc s.procs i { (s.procs i) with batch := [] } },
+        .processed (s.procs i).batch (s.procs i).epoch)
 
 def step (s : St) : Act → St × Out
   | .regO i => withStatus (evaluate { s with live := fun j => if j = i then some s.now else s.live j, ops := ins i s.ops })
@@ -229,7 +251,8 @@ def step (s : St) : Act → St × Out
         let s1 := { s with procs := deployProcs s none, status := .running, ticker := true }
         let s2 := (evaluate s1).1
         (s2, .started s2.status s.startCk s.asmSrs s2.store.pending.isSome
-               (s2.asmOps.filter fun i => (s2.procs i).inflight.isSome))
+               (s2.asmOps.filter fun i => (s2.procs i).inflight.isSome)
+               (s2.asmOps.filter fun i => !(s2.procs i).batch.isEmpty))
   | .deployFail k =>
       if s.status ≠ .starting then (s, .nostart)
       else
@@ -247,6 +270,8 @@ def step (s : St) : Act → St × Out
   | .ackS i id => let (st', r) := ackS s.store i id; ({ s with store := st' }, .ack r)
   | .ackO i id => let (st', r) := ackO s.store i id; ({ s with store := st' }, .ack r)
   | .bar i sr id => barrier s i sr id
+  | .ev i sr tag => event s i sr tag
+  | .flush i => flushBatch s i
 
 def run (s : St) : List Act → St × List Out
   | [] => (s, [])
@@ -262,7 +287,7 @@ def progressActs (s : St) : List Act :=
     (s.asmOps.flatMap fun i => s.asmSrs.map fun x => Act.bar i x (s.store.counter + 1)))
 
 /-- the states of all traces from all initial configurations -/
-def Reachable (s : St) : Prop := ∃ w d c0 acts, s = (run (init w d c0) acts).1
+def Reachable (s : St) : Prop := ∃ w d c0 bmax acts, s = (run (init w d c0 bmax) acts).1
 
 /-- registered with an unexpired heartbeat -/
 def alive (s : St) (i : Nat) : Prop := ∃ hb, s.live i = some hb ∧ expired s.d s.now hb = false
